@@ -443,3 +443,32 @@ register("C20",
          "the user's sources; plus the regenerated tables (copyAST node coverage, zeroValue kind coverage) closed by decide; "
          "non-trivial = each type-correct spelling",
          [_c20_part])
+
+
+def _c16_part(rep, tier):
+    from . import c16tier
+    fails = c16tier.run_layouts(rep, tier) + c16tier.run_module_configs(rep, tier)
+    rep.assumptions += ["go/packages, the module/GOPATH/vendor resolvers and Go map iteration are the real ones (modelled as 'any order')"]
+    return [], fails
+
+
+register("C16",
+         "unit tier: real unvendor/isWireImport on paths assembled from segments {vendor, govendor, vendored, ...} and the import block "
+         "frame prints for randomly ordered import tables; e2e: generated programs (2-3 injectors, renamed packages, many imports) "
+         "regenerated under repeats, another checkout location of different depth, cwd = package dir / module root, patterns . / "
+         "none / ./prog/... / import path, alone vs together: byte equality, and no run-specific string in the output; one program "
+         "with third-party dependencies in module, GOPATH and GOPATH+vendor mode: byte equality and the package builds; "
+         "non-trivial = each generated program / path with a vendor-like segment",
+         [stream_part("C16", lambda tier: [("paths", "paths", ["-seed", seed(), "-n", 8000 if tier == "quick" else 100000])],
+                      nontrivial=lambda case, im: "vendor" in " ".join(case.get("raw", []))),
+          _c16_part])
+
+register("C12",
+         "unit tier: real processStructProvider / processFieldsOf on random struct types (field names differing only in letter case, "
+         "every tag variety) and argument lists (interpreted, raw and escaped string literals, \"*\", non-literals); e2e: generated "
+         "programs rich in wire.Struct and wire.FieldsOf, run-time inspection of which fields are set, with which identity, and whether "
+         "a field pointer aliases the parent's field; non-trivial = request with >= 2 fields / accepted program with struct or field provider",
+         [stream_part("C12", lambda tier: [("fields", "fields", ["-seed", seed(), "-n", 15000 if tier == "quick" else 200000])],
+                      nontrivial=lambda case, im: len(case.get("raw", [])) >= 9),
+          e2e_part("C12", [("s", {"p_func": 0.25, "units": [1, 2]})], _pairs_c02, {"C12"}, _has(("struct", "field")),
+                   n_quick=90, n_thorough=900)])
